@@ -117,6 +117,49 @@ theorem fresh_connection_probe_tcp (cfg : Cfg) (hf : cfg.framer = .tcp) (w : Wor
   · trivial
   · simp
 
+/-- the framings a server front-end can be configured with, as the `Framing` of the receive-loop theory -/
+def framingOf : FramerKind → Option C06.Framing
+  | .tcp => some .tcp
+  | .rtu => some (.rtu rtuRuleServer)
+  | .ascii => some .ascii
+  | .binary => some .binary
+  | .tls => none
+
+/-- EVERY framing (TCP, RTU, ASCII, binary), every front-end: after ANY history, the packet the framer builds for a
+    data-access request, arriving whole on a fresh connection, is answered with exactly one frame: the framing, with
+    the request's ids, of what executing the request on the addressed unit's current tables yields -/
+theorem fresh_connection_probe (cfg : Cfg) (F : C06.Framing) (hF : framingOf cfg.framer = some F) (w : World)
+    (hl : (isTwisted cfg.frontend && w.ctl.listenOnly) = false)
+    (f : VFrame Req) (hb : C06.IsBuilt F decServer (acceptedUnits cfg w.units) w.units.single f)
+    (hda : isDataAccess f.msg = true)
+    (s : SlaveCtx) (hs : w.units.getItem f.uid = .ok s) (hbc : C10.bcast cfg f.uid = false)
+    (g : Bytes) (hfr : frameResp cfg (Impl.serverExecute s f.msg).2 f.uid f.tid f.pid = .ok g) :
+    (connStep cfg { buf := [] } w f.bytes).2.2 = ([g], none) ∧
+    (connStep cfg { buf := [] } w f.bytes).1 = { buf := [], running := true } := by
+  have hfeed := C03.whole_packet_delivers F decServer (acceptedUnits cfg w.units) w.units.single f hb
+  have hex := C09.execAny_dataAccess w.ctl s f.msg hda
+  have hcb : callback cfg w f.msg f.uid =
+      (afterExec w f.uid (Impl.serverExecute s f.msg).1, some (Impl.serverExecute s f.msg).2) := by
+    unfold callback
+    have hb' : (cfg.broadcast && hasBroadcast cfg.frontend && f.uid == 0) = false := hbc
+    rw [if_neg (by simp [hb'])]
+    simp only [hs, hex, afterExec]
+  have hsr : shouldRespond (Impl.serverExecute s f.msg).2 = true :=
+    C09.impl_should_respond s f.msg ((C09.isDataAccess_iff _).1 hda)
+  have hh : handleEvents cfg w [.deliver f.msg f.uid f.tid f.pid] =
+      (countMessage cfg (afterExec w f.uid (Impl.serverExecute s f.msg).1), [g], none) := by
+    rw [C09.handle_cons_ok [] hcb hsr hfr]
+    simp [handleEvents]
+  have hstep : stepFor cfg.framer = C06.stepOf F ∧ cfg.framer ≠ .tls := by
+    cases hk : cfg.framer <;> rw [hk] at hF <;> simp only [framingOf, Option.some.injEq, reduceCtorEq] at hF
+    all_goals subst hF
+    all_goals exact ⟨by funext buf; rfl, by simp⟩
+  unfold connStep
+  simp only [Bool.not_true, Bool.false_eq_true, if_false, hl, hstep.2, hstep.1, hfeed, hh]
+  constructor
+  · trivial
+  · simp
+
 def ctl0 : Control := { counters := List.replicate 9 0, diagReg := List.replicate 16 false, plus := List.replicate 54 0, ident := [] }
 
 example : (connStep ⟨.tcp, .syncTcp, false, false⟩ { buf := [] } ⟨ServerCtx.mkSingle ⟨[.seq ⟨0, [1]⟩], 0, 0, 0, 0, true⟩, ctl0⟩
@@ -125,5 +168,9 @@ example : (connStep ⟨.tcp, .syncTcp, false, false⟩ { buf := [] } ⟨ServerCt
 -- the probe theorem's conclusion on a concrete instance (read holding register 0 of a one-register unit holding 7)
 example : (connStep ⟨.tcp, .aioTcp, false, false⟩ { buf := [] } ⟨ServerCtx.mkSingle ⟨[.seq ⟨0, [7]⟩], 0, 0, 0, 0, true⟩, ctl0⟩
     [0, 1, 0, 0, 0, 6, 1, 3, 0, 0, 0, 1]).2.2 = ([[0, 1, 0, 0, 0, 5, 1, 3, 2, 0, 7]], none) := by rfl
+
+-- … and over RTU framing on the Twisted UDP front-end
+example : (connStep ⟨.rtu, .twistedUdp, false, false⟩ { buf := [] } ⟨ServerCtx.mkSingle ⟨[.seq ⟨0, [7]⟩], 0, 0, 0, 0, true⟩, ctl0⟩
+    [1, 3, 0, 0, 0, 1, 132, 10]).2.2 = ([[1, 3, 2, 0, 7, 249, 134]], none) := by rfl
 
 end Pymodbus.Props.C12
